@@ -195,7 +195,7 @@ var hostileVarints = [][]byte{
 	nil, // placeholder: v+1
 	ref.AppendLong(nil, 1<<31), ref.AppendLong(nil, 1<<32), ref.AppendLong(nil, 1<<62-1), ref.AppendLong(nil, math.MaxInt64),
 	{0xff, 0xff, 0xff, 0xff, 0xff, 0xff, 0xff, 0xff, 0xff, 0xff, 0x01}, // 11 bytes
-	{0x80},                             // truncated
+	{0x80}, // truncated
 	ref.AppendLong(nil, -2), ref.AppendLong(nil, 1<<40), ref.AppendLong(nil, 1<<28), ref.AppendLong(nil, 1<<24), ref.AppendLong(nil, -(1 << 40)),
 	{0xff, 0xff, 0xff, 0xff, 0xff, 0xff, 0xff, 0xff, 0xff, 0x02}, // overflows 64 bits
 }
